@@ -80,6 +80,7 @@ type jobResult struct {
 type knownFinding struct {
 	Property string
 	Key      string
+	Parts    []string
 	Text     string
 	hit      int
 }
@@ -90,14 +91,31 @@ func loadKnown() []*knownFinding {
 		return nil
 	}
 	var out []*knownFinding
-	re := regexp.MustCompile(`^known:\s+property=(\S+)\s+key=\{(.*?)\}\s+(.*)$`)
+	// key={part}{part}...: every part must occur in the signature of the violation. Findings are keyed by
+	// the failing INPUT (src=...) and the kind of failure, not by the function in which the failure surfaces,
+	// so that moving code around neither hides nor re-reports them.
+	re := regexp.MustCompile(`^known:\s+property=(\S+)\s+key=((?:\{.*?\})+)\s+(.*)$`)
 	for _, line := range strings.Split(string(b), "\n") {
 		line = strings.TrimSpace(line)
 		if m := re.FindStringSubmatch(line); m != nil {
-			out = append(out, &knownFinding{Property: m[1], Key: m[2], Text: m[3]})
+			parts := strings.Split(strings.TrimSuffix(strings.TrimPrefix(m[2], "{"), "}"), "}{")
+			for i := range parts {
+				// a trailing \x00 anchors a part at the end of the signature (src= is its last field)
+				parts[i] = strings.ReplaceAll(parts[i], `\x00`, "\x00")
+			}
+			out = append(out, &knownFinding{Property: m[1], Key: m[2], Parts: parts, Text: m[3]})
 		}
 	}
 	return out
+}
+
+func (k *knownFinding) matches(sig string) bool {
+	for _, p := range k.Parts {
+		if !strings.Contains(sig+"\x00", p) {
+			return false
+		}
+	}
+	return len(k.Parts) > 0
 }
 
 // signature identifies a violation by job group, kind, harness message and innermost repo function of a panic.
@@ -261,6 +279,40 @@ func cmdCheck(argv []string) int {
 		}
 		ev.CrossJobs += crossJobs
 		crossJobs = 0
+		// passing paths are replayed natively too: the native side of the harness (and the model of the
+		// environment) must agree with the symbolic run on inputs where nothing is wrong
+		if !*noReplay && !g.Twin && os.Getenv("VERIF_NO_POSITIVE") == "" {
+			var prfs []*ReplayFile
+			perJob := 1
+			for _, jr := range results {
+				if len(prfs) >= 8 {
+					break
+				}
+				for k, sm := range jr.res.Samples {
+					if k >= perJob || sm.Kind != "ok" {
+						break
+					}
+					prfs = append(prfs, &ReplayFile{Property: id, Group: g.Name, Overlay: g.Overlay, Pkg: g.Pkg, Entry: g.Entry, Args: jr.args, Kind: "ok", Nondet: sm.Nondet, Notes: sm.Notes, Race: false})
+				}
+			}
+			if len(prfs) > 0 {
+				nativeReplay(prfs, workDir)
+				for i, st := range lastReplayStatus {
+					ev.PositiveReplays++
+					if st == "" || strings.HasPrefix(st, "PASS") || strings.HasPrefix(st, "ASSUMEFAILED") {
+						if st == "" {
+							ev.PositiveReplays--
+						}
+						continue
+					}
+					msg := fmt.Sprintf("NATIVE-DIFFERS %s%v: a path that passes symbolically fails natively (%s) notes=%s", g.Name, prfs[i].Args, strings.TrimSpace(st), notesStr(prfs[i].Notes))
+					if len(msg) > 600 {
+						msg = msg[:600]
+					}
+					inconclusive = append(inconclusive, msg)
+				}
+			}
+		}
 		// post-process
 		twinSeen := false
 		for _, jr := range results {
@@ -360,13 +412,16 @@ func cmdCheck(argv []string) int {
 				// known finding?
 				var kf *knownFinding
 				for _, k := range known {
-					if k.Property == id && strings.Contains(rf.Sig, k.Key) {
+					if k.Property == id && k.matches(rf.Sig) {
 						kf = k
 						break
 					}
 				}
 				if kf != nil {
 					kf.hit++
+					if os.Getenv("VERIF_SHOW_KNOWN") != "" {
+						fmt.Printf("KNOWN-HIT %s | %s\n", rf.Sig, notesStr(rf.Notes))
+					}
 					if !knownHits[kf.Key] {
 						knownHits[kf.Key] = true
 						fmt.Printf("KNOWN-FINDING: property=%s %s (e.g. %s)\n", id, kf.Text, notesStr(rf.Notes))
@@ -584,8 +639,12 @@ func goEnv() []string {
 
 // nativeReplay runs the vectors against the natively compiled real code. All files must share
 // the same overlay/pkg/entry (one group, one job).
+// lastReplayStatus[i] is the raw outcome line of vector i in the last nativeReplay call ("PASS", "PANIC …", "")
+var lastReplayStatus []string
+
 func nativeReplay(rfs []*ReplayFile, workDir string) []bool {
 	confirmed := make([]bool, len(rfs))
+	lastReplayStatus = make([]string, len(rfs))
 	if len(rfs) == 0 {
 		return confirmed
 	}
@@ -694,10 +753,24 @@ func nativeReplay(rfs []*ReplayFile, workDir string) []bool {
 			if m == nil {
 				continue
 			}
+			lastReplayStatus[i] = m[1] + m[2]
 			switch m[1] {
 			case "PANIC":
 				if rf.Kind == "fail" {
-					confirmed[i] = strings.Contains(m[2], "VERIF-FAIL") || rf.AcceptPanic
+					// the native run must fail with the predicted assertion (a different native failure means the
+					// model and the real run disagree: inconclusive), or crash where the property forbids crashes
+					want := rf.Msg
+					if len(want) > 100 {
+						want = want[:100]
+					}
+					if strings.Contains(m[2], "VERIF-FAIL") {
+						confirmed[i] = strings.Contains(m[2], "VERIF-FAIL: "+want)
+						if !confirmed[i] {
+							fmt.Printf("NATIVE-DIFFERS predicted %q, native run fails with%s\n", rf.Msg, m[2])
+						}
+					} else {
+						confirmed[i] = rf.AcceptPanic
+					}
 				} else {
 					confirmed[i] = !strings.Contains(m[2], "VERIF-FAIL")
 				}
